@@ -1,7 +1,8 @@
 /-
-  C11 — helper lemmas (part 5): the context handed to `Shutdown` and the control flow of the
+  C11 — helper lemmas (part 5): the contexts handed to `Shutdown` and the control flow of the
   goroutine of `HTTPProxy.run`.  A second, small invariant over the control part of the state
-  (`shut`, `close`, `runner`, `ctxExpired`, `noLimit`): no connection step touches it.
+  (the calls of Shutdown / Close with their contexts, `runner`, the shutdown configuration): no
+  connection step touches it.
 -/
 import FwdVerif.Lemmas.C11Inv
 
@@ -10,92 +11,656 @@ namespace C11
 
 /-- the control part of the state -/
 structure Ctl where
-  shut : SPC
-  close : CPC
+  shuts : CallId → SCall
+  closes : CallId → CPC
   runner : RPC
-  ctxExpired : Bool
-  noLimit : Bool
+  runShut : CallId
+  runClose : CallId
+  cfgNoLimit : Bool
+  cfgSignals : Bool
+  api : Bool
 
-def ctl (s : State) : Ctl := ⟨s.shut, s.close, s.runner, s.ctxExpired, s.noLimit⟩
+def ctl (s : State) : Ctl :=
+  ⟨s.shuts, s.closes, s.runner, s.runShut, s.runClose, s.cfgNoLimit, s.cfgSignals, s.api⟩
 
 theorem applyEff_ctl (s : State) (c : ConnId) (e : Eff) : ctl (applyEff s c e) = ctl s := by
   cases e <;> rfl
 
 /-- a step of a connection's goroutine leaves the control part alone -/
 theorem step_conn_ctl {s s' : State} {c : ConnId} {a : CAct} (h : step s (.conn c a) = some s') :
-    s'.shut = s.shut ∧ s'.close = s.close ∧ s'.runner = s.runner ∧ s'.ctxExpired = s.ctxExpired ∧
-      s'.noLimit = s.noLimit := by
+    ctl s' = ctl s := by
   obtain ⟨x, e, _, rfl⟩ := step_conn_eq h
-  have := applyEff_ctl (setConn s c x) c e
-  simp only [ctl, setConn, Ctl.mk.injEq] at this
-  exact this
+  exact applyEff_ctl (setConn s c x) c e
 
-/-- the kind of context never changes -/
-theorem step_noLimit {s s' : State} (a : Action) (h : step s a = some s') : s'.noLimit = s.noLimit := by
+/-- `run` has called `Shutdown` -/
+def runnerPast : RPC → Bool
+  | .inShutdown | .inClose | .finished => true
+  | _ => false
+
+/-- the invariant, on the control part -/
+structure CtlInv (t : Ctl) : Prop where
+  /-- a context is done for a reason its kind allows -/
+  kindD : ∀ k, (t.shuts k).done = some .deadline → (t.shuts k).noLimit = false
+  kindC : ∀ k, (t.shuts k).done = some .cancel → (t.shuts k).cancellable = true
+  /-- the proxy is driven through `run` or through the API, not both -/
+  apiRun : t.runner ≠ .idle → t.api = false
+  /-- under `run`, the only call of `Shutdown` is run's -/
+  onlyS : t.api = false → ∀ j, (t.shuts j).pc ≠ .idle → runnerPast t.runner = true ∧ j = t.runShut
+  /-- … and the only call of `Close` is run's, made after its `Shutdown` returned an error -/
+  onlyC : t.api = false → ∀ j, t.closes j ≠ .idle →
+      (t.runner = .inClose ∨ t.runner = .finished) ∧ j = t.runClose ∧ (t.shuts t.runShut).pc = .doneErr
+  /-- the context `run` hands to `Shutdown` is the one `shutdownContext` builds from the configuration -/
+  kind : runnerPast t.runner = true → (t.shuts t.runShut).pc ≠ .idle ∧
+      (t.shuts t.runShut).noLimit = t.cfgNoLimit ∧ (t.shuts t.runShut).cancellable = t.cfgSignals
+  /-- `run` is in its call of `Close` only after `Shutdown` returned an error, and `Close` was really called -/
+  inClose : t.runner = .inClose → (t.shuts t.runShut).pc = .doneErr ∧ t.closes t.runClose ≠ .idle
+  /-- `run` returns after `Shutdown` returned nil, or — `Shutdown` having returned an error — after `Close` returned -/
+  fin : t.runner = .finished → (t.shuts t.runShut).pc = .doneNil ∨
+      ((t.shuts t.runShut).pc = .doneErr ∧ t.closes t.runClose = .done)
+
+def CtxInv (s : State) : Prop := CtlInv (ctl s)
+
+theorem ctxinv_initCfg (nl sg : Bool) : CtxInv (initCfg nl sg) := by
+  constructor <;> simp [initCfg, ctl, runnerPast]
+
+/-- the context of call `k` becomes done (for a reason its kind allows), nothing else changes -/
+theorem ctlinv_ctx {t : Ctl} {k : CallId} {x : SCall} (hi : CtlInv t) (hpc : x.pc = (t.shuts k).pc)
+    (hn : x.noLimit = (t.shuts k).noLimit) (hc : x.cancellable = (t.shuts k).cancellable)
+    (hdD : x.done = some .deadline → x.noLimit = false) (hdC : x.done = some .cancel → x.cancellable = true) :
+    CtlInv { t with shuts := fun j => if j = k then x else t.shuts j } := by
+  have e1 : ∀ j, (if j = k then x else t.shuts j).pc = (t.shuts j).pc := by
+    intro j; split
+    · rename_i h; rw [h, hpc]
+    · rfl
+  have e2 : ∀ j, (if j = k then x else t.shuts j).noLimit = (t.shuts j).noLimit := by
+    intro j; split
+    · rename_i h; rw [h, hn]
+    · rfl
+  have e3 : ∀ j, (if j = k then x else t.shuts j).cancellable = (t.shuts j).cancellable := by
+    intro j; split
+    · rename_i h; rw [h, hc]
+    · rfl
+  obtain ⟨r1, r2, r3, r4, r5, r6, r7, r8⟩ := hi
+  refine ⟨?_, ?_, r3, ?_, ?_, ?_, ?_, ?_⟩
+  · intro j
+    show (if j = k then x else t.shuts j).done = _ → (if j = k then x else t.shuts j).noLimit = false
+    by_cases hj : j = k
+    · simp only [if_pos hj]; exact hdD
+    · simp only [if_neg hj]; exact r1 j
+  · intro j
+    show (if j = k then x else t.shuts j).done = _ → (if j = k then x else t.shuts j).cancellable = true
+    by_cases hj : j = k
+    · simp only [if_pos hj]; exact hdC
+    · simp only [if_neg hj]; exact r2 j
+  · intro ha j
+    show (if j = k then x else t.shuts j).pc ≠ .idle → _
+    rw [e1 j]; exact r4 ha j
+  · intro ha j
+    show _ → _ ∧ _ ∧ (if t.runShut = k then x else t.shuts t.runShut).pc = .doneErr
+    rw [e1 t.runShut]; exact r5 ha j
+  · show _ → (if t.runShut = k then x else t.shuts t.runShut).pc ≠ .idle ∧
+      (if t.runShut = k then x else t.shuts t.runShut).noLimit = _ ∧
+      (if t.runShut = k then x else t.shuts t.runShut).cancellable = _
+    rw [e1 t.runShut, e2 t.runShut, e3 t.runShut]; exact r6
+  · show _ → (if t.runShut = k then x else t.shuts t.runShut).pc = .doneErr ∧ _
+    rw [e1 t.runShut]; exact r7
+  · show _ → (if t.runShut = k then x else t.shuts t.runShut).pc = .doneNil ∨
+      ((if t.runShut = k then x else t.shuts t.runShut).pc = .doneErr ∧ _)
+    rw [e1 t.runShut]; exact r8
+
+/-- actions of the environment, of `Serve`, the iteration of `Close`'s loop and the observations of the callers -/
+def Action.isEnv : Action → Bool
+  | .conn .. | .connect .. | .connectRefused .. | .hello .. | .sendPartial .. | .send .. | .gone ..
+  | .originSeen .. | .originAnswer .. | .originEnd .. | .respSeen .. | .echoSeen .. | .closedSeen ..
+  | .listenerClose | .serveCheck | .accept .. | .closeConn .. | .shutdownRet .. | .closeRet .. | .runRet => true
+  | _ => false
+
+/-- … leave the control part alone -/
+theorem step_env_ctl {s s' : State} (a : Action) (h : step s a = some s') (ha : a.isEnv = true) :
+    ctl s' = ctl s := by
   cases a with
-  | conn c a => exact (step_conn_ctl h).2.2.2.2
+  | conn c a => exact step_conn_ctl h
   | _ =>
-    simp only [step] at h
-    repeat' split at h
-    all_goals first
-      | (simp at h; done)
-      | (simp only [Option.some.injEq] at h; subst h; first | rfl | (simp only [closeListener, setConn]; done) | (split <;> rfl))
+    first
+      | (simp [Action.isEnv] at ha; done)
+      | (simp only [step] at h
+         repeat' split at h
+         all_goals first
+           | (simp at h; done)
+           | (simp only [Option.some.injEq] at h; subst h
+              first | rfl | (simp only [closeListener, setConn]; done) | (split <;> rfl)))
 
-structure CtxInv (s : State) : Prop where
-  /-- a context without deadline has not expired -/
-  noExpiry : s.noLimit = true → s.ctxExpired = false
-  /-- once `run` is under way, `Close` runs only after `Shutdown` returned the context's error -/
-  runClose : s.runner ≠ .idle → s.close ≠ .idle → s.shut = .doneErr
-  /-- `run` is in its call of `Close` only when `Close` was really called -/
-  inClose : s.runner = .inClose → s.close ≠ .idle
-  /-- `run` returns after `Shutdown` returned nil, or after `Close` returned -/
-  fin : s.runner = .finished → s.shut = .doneNil ∨ s.close = .done
-  /-- `run` is past the listeners only with `Shutdown` called -/
-  past : (s.runner = .inShutdown ∨ s.runner = .inClose ∨ s.runner = .finished) → s.shut ≠ .idle
+/-- one step of call `k` of `Shutdown` (it has been called and has not returned): its program counter
+    changes, its context does not -/
+theorem ctlinv_shutStep {t : Ctl} {k : CallId} {x : SCall} (hi : CtlInv t)
+    (h0 : (t.shuts k).pc ≠ .idle) (h1 : (t.shuts k).pc ≠ .doneErr) (h2 : (t.shuts k).pc ≠ .doneNil)
+    (hx0 : x.pc ≠ .idle) (hn : x.noLimit = (t.shuts k).noLimit) (hc : x.cancellable = (t.shuts k).cancellable)
+    (hd : x.done = (t.shuts k).done) :
+    CtlInv { t with shuts := fun j => if j = k then x else t.shuts j } := by
+  obtain ⟨r1, r2, r3, r4, r5, r6, r7, r8⟩ := hi
+  have hrs : t.runShut ≠ k → (if t.runShut = k then x else t.shuts t.runShut) = t.shuts t.runShut :=
+    fun h => if_neg h
+  refine ⟨?_, ?_, r3, ?_, ?_, ?_, ?_, ?_⟩
+  · intro j
+    show (if j = k then x else t.shuts j).done = _ → (if j = k then x else t.shuts j).noLimit = false
+    by_cases hj : j = k
+    · simp only [if_pos hj]; rw [hd, hn]; exact r1 k
+    · simp only [if_neg hj]; exact r1 j
+  · intro j
+    show (if j = k then x else t.shuts j).done = _ → (if j = k then x else t.shuts j).cancellable = true
+    by_cases hj : j = k
+    · simp only [if_pos hj]; rw [hd, hc]; exact r2 k
+    · simp only [if_neg hj]; exact r2 j
+  · intro ha j
+    show (if j = k then x else t.shuts j).pc ≠ .idle → _
+    by_cases hj : j = k
+    · simp only [if_pos hj]; intro _; rw [hj]; exact r4 ha k h0
+    · simp only [if_neg hj]; exact r4 ha j
+  · intro ha j hjc
+    obtain ⟨a1, a2, a3⟩ := r5 ha j hjc
+    refine ⟨a1, a2, ?_⟩
+    show (if t.runShut = k then x else t.shuts t.runShut).pc = .doneErr
+    rw [hrs (by intro h; rw [h] at a3; exact h1 a3)]; exact a3
+  · intro hp
+    obtain ⟨a1, a2, a3⟩ := r6 hp
+    show (if t.runShut = k then x else t.shuts t.runShut).pc ≠ .idle ∧
+      (if t.runShut = k then x else t.shuts t.runShut).noLimit = _ ∧
+      (if t.runShut = k then x else t.shuts t.runShut).cancellable = _
+    by_cases hr : t.runShut = k
+    · simp only [if_pos hr]; rw [hr] at a2 a3; exact ⟨hx0, hn.trans a2, hc.trans a3⟩
+    · simp only [if_neg hr]; exact ⟨a1, a2, a3⟩
+  · intro hr
+    obtain ⟨a1, a2⟩ := r7 hr
+    refine ⟨?_, a2⟩
+    show (if t.runShut = k then x else t.shuts t.runShut).pc = .doneErr
+    rw [hrs (by intro h; rw [h] at a1; exact h1 a1)]; exact a1
+  · intro hr
+    show (if t.runShut = k then x else t.shuts t.runShut).pc = .doneNil ∨
+      ((if t.runShut = k then x else t.shuts t.runShut).pc = .doneErr ∧ _)
+    rcases r8 hr with a1 | ⟨a1, a2⟩
+    · rw [hrs (by intro h; rw [h] at a1; exact h2 a1)]; exact Or.inl a1
+    · rw [hrs (by intro h; rw [h] at a1; exact h1 a1)]; exact Or.inr ⟨a1, a2⟩
 
-theorem ctxinv_init : CtxInv init := by
-  constructor <;> simp [init]
+/-- one step of call `k` of `Close` (it has been called and has not returned) -/
+theorem ctlinv_closeStep {t : Ctl} {k : CallId} {x : CPC} (hi : CtlInv t)
+    (h0 : t.closes k ≠ .idle) (h1 : t.closes k ≠ .done) (hx0 : x ≠ .idle) :
+    CtlInv { t with closes := fun j => if j = k then x else t.closes j } := by
+  obtain ⟨r1, r2, r3, r4, r5, r6, r7, r8⟩ := hi
+  refine ⟨r1, r2, r3, r4, ?_, r6, ?_, ?_⟩
+  · intro ha j
+    show (if j = k then x else t.closes j) ≠ .idle → _
+    by_cases hj : j = k
+    · simp only [if_pos hj]; intro _; rw [hj]; exact r5 ha k h0
+    · simp only [if_neg hj]; exact r5 ha j
+  · intro hr
+    obtain ⟨a1, a2⟩ := r7 hr
+    refine ⟨a1, ?_⟩
+    show (if t.runClose = k then x else t.closes t.runClose) ≠ .idle
+    by_cases hk : t.runClose = k
+    · simp only [if_pos hk]; exact hx0
+    · simp only [if_neg hk]; exact a2
+  · intro hr
+    rcases r8 hr with a1 | ⟨a1, a2⟩
+    · exact Or.inl a1
+    · refine Or.inr ⟨a1, ?_⟩
+      show (if t.runClose = k then x else t.closes t.runClose) = .done
+      rw [if_neg (by intro h; rw [h] at a2; exact h1 a2)]; exact a2
 
-theorem ctxinv_initNoLimit : CtxInv initNoLimit := by
-  constructor <;> simp [initNoLimit]
+/-- a call through the API (the proxy is not driven by `run`) -/
+theorem ctlinv_api {t : Ctl} {sh : CallId → SCall} {cl : CallId → CPC} (_hi : CtlInv t) (hr : t.runner = .idle)
+    (hD : ∀ k, (sh k).done = some .deadline → (sh k).noLimit = false)
+    (hC : ∀ k, (sh k).done = some .cancel → (sh k).cancellable = true) :
+    CtlInv { t with shuts := sh, closes := cl, api := true } := by
+  refine ⟨hD, hC, ?_, ?_, ?_, ?_, ?_, ?_⟩
+  · intro h; exact absurd hr h
+  · intro h; cases h
+  · intro h; cases h
+  · intro h; rw [show ({ t with shuts := sh, closes := cl, api := true } : Ctl).runner = .idle from hr] at h
+    simp [runnerPast] at h
+  · intro h; rw [show ({ t with shuts := sh, closes := cl, api := true } : Ctl).runner = .idle from hr] at h
+    cases h
+  · intro h; rw [show ({ t with shuts := sh, closes := cl, api := true } : Ctl).runner = .idle from hr] at h
+    cases h
+
+/-- before `run` calls `Shutdown` nothing has been called -/
+theorem ctlinv_noCalls {t : Ctl} (hi : CtlInv t) (ha : t.api = false) (hp : runnerPast t.runner = false) :
+    (∀ j, (t.shuts j).pc = .idle) ∧ ∀ j, t.closes j = .idle := by
+  constructor
+  · intro j
+    cases hpc : (t.shuts j).pc with
+    | idle => rfl
+    | _ => have := (hi.onlyS ha j (by rw [hpc]; simp)).1; rw [hp] at this; cases this
+  · intro j
+    cases hc : t.closes j with
+    | idle => rfl
+    | _ =>
+      have := (hi.onlyC ha j (by rw [hc]; simp)).1
+      rcases this with h | h <;> (rw [h] at hp; simp [runnerPast] at hp)
+
+/-- `run` moves on before it has called anything -/
+theorem ctlinv_early {t : Ctl} {r : RPC} (hi : CtlInv t) (ha : t.api = false)
+    (hp : runnerPast t.runner = false) (hr : runnerPast r = false) : CtlInv { t with runner := r } := by
+  obtain ⟨hs, hc⟩ := ctlinv_noCalls hi ha hp
+  refine ⟨hi.kindD, hi.kindC, fun _ => ha, ?_, ?_, ?_, ?_, ?_⟩
+  · intro _ j hj; exact absurd (hs j) hj
+  · intro _ j hj; exact absurd (hc j) hj
+  · intro h; rw [show ({ t with runner := r } : Ctl).runner = r from rfl, hr] at h; cases h
+  · intro h; rw [show ({ t with runner := r } : Ctl).runner = r from rfl] at h; rw [h] at hr; simp [runnerPast] at hr
+  · intro h; rw [show ({ t with runner := r } : Ctl).runner = r from rfl] at h; rw [h] at hr; simp [runnerPast] at hr
+
+theorem ctxinv_shutdownCall {s s' : State} (k : CallId) (nl cb : Bool) (hi : CtxInv s)
+    (h : step s (.shutdownCall k nl cb) = some s') : CtxInv s' := by
+  simp only [step] at h
+  split at h
+  · rename_i hg; cases h
+    refine ctlinv_api (t := ctl s) hi hg.2 ?_ ?_
+    · intro j
+      show (if j = k then _ else s.shuts j).done = _ → (if j = k then _ else s.shuts j).noLimit = false
+      by_cases hj : j = k
+      · simp only [if_pos hj]; intro h; cases h
+      · simp only [if_neg hj]; exact hi.kindD j
+    · intro j
+      show (if j = k then _ else s.shuts j).done = _ → (if j = k then _ else s.shuts j).cancellable = true
+      by_cases hj : j = k
+      · simp only [if_pos hj]; intro h; cases h
+      · simp only [if_neg hj]; exact hi.kindC j
+  · simp at h
+
+theorem ctxinv_closeCall {s s' : State} (k : CallId) (hi : CtxInv s)
+    (h : step s (.closeCall k) = some s') : CtxInv s' := by
+  simp only [step] at h
+  split at h
+  · rename_i hg; cases h
+    exact ctlinv_api (t := ctl s) hi hg.2 hi.kindD hi.kindC
+  · simp at h
+
+theorem ctxinv_ctxExpire {s s' : State} (k : CallId) (hi : CtxInv s)
+    (h : step s (.ctxExpire k) = some s') : CtxInv s' := by
+  simp only [step] at h
+  split at h
+  · rename_i hg; cases h
+    refine ctlinv_ctx (t := ctl s) (k := k) hi rfl rfl rfl ?_ ?_
+    · intro _; exact hg.2
+    · intro h0
+      apply hi.kindC k
+      show (s.shuts k).done = some .cancel
+      revert h0; unfold ctxDone; cases (s.shuts k).done <;> simp
+  · simp at h
+
+theorem ctxinv_ctxCancel {s s' : State} (k : CallId) (hi : CtxInv s)
+    (h : step s (.ctxCancel k) = some s') : CtxInv s' := by
+  simp only [step] at h
+  split at h
+  · rename_i hg; cases h
+    refine ctlinv_ctx (t := ctl s) (k := k) hi rfl rfl rfl ?_ ?_
+    · intro h0
+      apply hi.kindD k
+      show (s.shuts k).done = some .deadline
+      revert h0; unfold ctxDone; cases (s.shuts k).done <;> simp
+    · intro _; exact hg.2
+  · simp at h
+
+theorem ctxinv_cancel {s s' : State} (hi : CtxInv s) (h : step s .cancel = some s') : CtxInv s' := by
+  simp only [step] at h
+  split at h
+  · rename_i hg; cases h
+    exact ctlinv_early (t := ctl s) (r := .cancelled) hi hg.2 (by simp [ctl, hg.1, runnerPast]) rfl
+  · simp at h
+
+theorem ctxinv_runCloseListeners {s s' : State} (hi : CtxInv s) (h : step s .runCloseListeners = some s') :
+    CtxInv s' := by
+  simp only [step] at h
+  split at h
+  · rename_i hg; cases h
+    have ha : s.api = false := hi.apiRun (by simp [ctl, hg])
+    have := ctlinv_early (t := ctl s) (r := .listenersClosed) hi ha (by simp [ctl, hg, runnerPast]) rfl
+    split
+    · exact this
+    · exact this
+  · simp at h
+
+/-- the steps of `Shutdown` proper: from a program counter that is neither idle nor final -/
+theorem ctxinv_shut {s : State} {k : CallId} {pc : SPC} {sc : Bool} (hi : CtxInv s)
+    (h0 : (s.shuts k).pc ≠ .idle) (h1 : (s.shuts k).pc ≠ .doneErr) (h2 : (s.shuts k).pc ≠ .doneNil)
+    (hx0 : pc ≠ .idle) (l : Holder) (cl : Bool) :
+    CtxInv { setShut s k { s.shuts k with pc := pc, sawClosing := sc } with lock := l, closing := cl } :=
+  ctlinv_shutStep (t := ctl s) (k := k) hi h0 h1 h2 hx0 rfl rfl rfl
+
+theorem ctxinv_shutLock {s s' : State} (k : CallId) (hi : CtxInv s)
+    (h : step s (.shutLock k) = some s') : CtxInv s' := by
+  simp only [step] at h
+  split at h
+  · rename_i hg; cases h
+    exact ctxinv_shut (sc := (s.shuts k).sawClosing) hi (by simp [hg.1]) (by simp [hg.1]) (by simp [hg.1])
+      (by simp) _ s.closing
+  · simp at h
+
+theorem ctxinv_shutCloseCh {s s' : State} (k : CallId) (hi : CtxInv s)
+    (h : step s (.shutCloseCh k) = some s') : CtxInv s' := by
+  simp only [step] at h
+  split at h
+  · rename_i hg; cases h
+    exact ctxinv_shut hi (by simp [hg]) (by simp [hg]) (by simp [hg]) (by simp) s.lock true
+  · simp at h
+
+theorem ctxinv_shutPoll {s s' : State} (k : CallId) (hi : CtxInv s)
+    (h : step s (.shutPoll k) = some s') : CtxInv s' := by
+  simp only [step] at h
+  split at h
+  · rename_i hg; cases h
+    exact ctxinv_shut (sc := (s.shuts k).sawClosing) hi (by simp [hg]) (by simp [hg]) (by simp [hg])
+      (by split <;> simp) s.lock s.closing
+  · simp at h
+
+theorem ctxinv_shutTimer {s s' : State} (k : CallId) (hi : CtxInv s)
+    (h : step s (.shutTimer k) = some s') : CtxInv s' := by
+  simp only [step] at h
+  split at h
+  · rename_i hg; cases h
+    exact ctxinv_shut (sc := (s.shuts k).sawClosing) hi (by simp [hg]) (by simp [hg]) (by simp [hg])
+      (by simp) s.lock s.closing
+  · simp at h
+
+theorem ctxinv_shutCtx {s s' : State} (k : CallId) (hi : CtxInv s)
+    (h : step s (.shutCtx k) = some s') : CtxInv s' := by
+  simp only [step] at h
+  split at h
+  · rename_i hg; cases h
+    exact ctxinv_shut (sc := (s.shuts k).sawClosing) hi (by simp [hg.1]) (by simp [hg.1]) (by simp [hg.1])
+      (by simp) s.lock s.closing
+  · simp at h
+
+theorem ctxinv_shutUnlock {s s' : State} (k : CallId) (hi : CtxInv s)
+    (h : step s (.shutUnlock k) = some s') : CtxInv s' := by
+  simp only [step] at h
+  split at h
+  · rename_i hg; cases h
+    exact ctxinv_shut (sc := (s.shuts k).sawClosing) hi (by simp [hg]) (by simp [hg]) (by simp [hg])
+      (by simp) .none s.closing
+  · split at h
+    · rename_i hg; cases h
+      exact ctxinv_shut (sc := (s.shuts k).sawClosing) hi (by simp [hg]) (by simp [hg]) (by simp [hg])
+        (by simp) .none s.closing
+    · simp at h
+
+/-- the steps of `Close` proper -/
+theorem ctxinv_close {s : State} {k : CallId} {x : CPC} (hi : CtxInv s)
+    (h0 : s.closes k ≠ .idle) (h1 : s.closes k ≠ .done) (hx0 : x ≠ .idle) (l : Holder) (cl : Bool)
+    (sw : List ConnId) (ec : Bool) :
+    CtxInv { setClose s k x with lock := l, closing := cl, sweepLeft := sw, everClosed := ec } :=
+  ctlinv_closeStep (t := ctl s) (k := k) hi h0 h1 hx0
+
+theorem ctxinv_closeLock {s s' : State} (k : CallId) (hi : CtxInv s)
+    (h : step s (.closeLock k) = some s') : CtxInv s' := by
+  simp only [step] at h
+  split at h
+  · rename_i hg; cases h
+    exact ctxinv_close hi (by simp [hg.1]) (by simp [hg.1]) (by simp) _ s.closing s.sweepLeft s.everClosed
+  · simp at h
+
+theorem ctxinv_closeCloseCh {s s' : State} (k : CallId) (hi : CtxInv s)
+    (h : step s (.closeCloseCh k) = some s') : CtxInv s' := by
+  simp only [step] at h
+  split at h
+  · rename_i hg; cases h
+    exact ctxinv_close hi (by simp [hg]) (by simp [hg]) (by simp) s.lock true s.registered true
+  · simp at h
+
+theorem ctxinv_closeAll {s s' : State} (k : CallId) (hi : CtxInv s)
+    (h : step s (.closeAll k) = some s') : CtxInv s' := by
+  simp only [step] at h
+  split at h
+  · rename_i hg; cases h
+    exact ctxinv_close hi (by simp [hg.1]) (by simp [hg.1]) (by simp) s.lock s.closing s.sweepLeft s.everClosed
+  · simp at h
+
+theorem ctxinv_closeUnlock {s s' : State} (k : CallId) (hi : CtxInv s)
+    (h : step s (.closeUnlock k) = some s') : CtxInv s' := by
+  simp only [step] at h
+  split at h
+  · rename_i hg; cases h
+    exact ctxinv_close hi (by simp [hg]) (by simp [hg]) (by simp) .none s.closing s.sweepLeft s.everClosed
+  · simp at h
+
+theorem ctxinv_runShutdown {s s' : State} (k : CallId) (hi : CtxInv s)
+    (h : step s (.runShutdown k) = some s') : CtxInv s' := by
+  simp only [step] at h
+  split at h
+  · rename_i hg; cases h
+    have ha : s.api = false := hi.apiRun (by simp [ctl, hg.1])
+    obtain ⟨hs, hc⟩ := ctlinv_noCalls (t := ctl s) hi ha (by simp [ctl, hg.1, runnerPast])
+    refine ⟨?_, ?_, fun _ => ha, ?_, ?_, ?_, ?_, ?_⟩
+    · intro j
+      show (if j = k then _ else s.shuts j).done = _ → (if j = k then _ else s.shuts j).noLimit = false
+      by_cases hj : j = k
+      · simp only [if_pos hj]; intro h; cases h
+      · simp only [if_neg hj]; exact hi.kindD j
+    · intro j
+      show (if j = k then _ else s.shuts j).done = _ → (if j = k then _ else s.shuts j).cancellable = true
+      by_cases hj : j = k
+      · simp only [if_pos hj]; intro h; cases h
+      · simp only [if_neg hj]; exact hi.kindC j
+    · intro _ j
+      show (if j = k then _ else s.shuts j).pc ≠ .idle → _ ∧ j = k
+      by_cases hj : j = k
+      · intro _; exact ⟨rfl, hj⟩
+      · simp only [if_neg hj]; intro h; exact absurd (hs j) h
+    · intro _ j hj; exact absurd (hc j) hj
+    · intro _
+      show (if k = k then _ else s.shuts k).pc ≠ .idle ∧ (if k = k then _ else s.shuts k).noLimit = s.cfgNoLimit ∧
+        (if k = k then _ else s.shuts k).cancellable = s.cfgSignals
+      simp
+    · intro h; cases h
+    · intro h; cases h
+  · simp at h
+
+theorem ctxinv_runAfterShutdown {s s' : State} (k : CallId) (hi : CtxInv s)
+    (h : step s (.runAfterShutdown k) = some s') : CtxInv s' := by
+  simp only [step] at h
+  split at h
+  · rename_i hg; cases h
+    have ha : s.api = false := hi.apiRun (by simp [ctl, hg.1])
+    refine ⟨hi.kindD, hi.kindC, fun _ => ha, ?_, ?_, ?_, ?_, ?_⟩
+    · intro _ j hj; exact ⟨rfl, (hi.onlyS ha j hj).2⟩
+    · intro _ j hj
+      have := (hi.onlyC ha j hj).1
+      rcases this with h | h <;> (rw [show (ctl s).runner = s.runner from rfl, hg.1] at h; cases h)
+    · intro _; exact hi.kind (by simp [ctl, hg.1, runnerPast])
+    · intro h; cases h
+    · intro _; exact Or.inl hg.2
+  · split at h
+    · rename_i hg; cases h
+      have ha : s.api = false := hi.apiRun (by simp [ctl, hg.1])
+      have hnoc : ∀ j, s.closes j = .idle := by
+        intro j
+        cases hc : s.closes j with
+        | idle => rfl
+        | _ =>
+          have := (hi.onlyC ha j (by rw [show (ctl s).closes j = s.closes j from rfl, hc]; simp)).1
+          rcases this with h | h <;> (rw [show (ctl s).runner = s.runner from rfl, hg.1] at h; cases h)
+      refine ⟨hi.kindD, hi.kindC, fun _ => ha, ?_, ?_, ?_, ?_, ?_⟩
+      · intro _ j hj; exact ⟨rfl, (hi.onlyS ha j hj).2⟩
+      · intro _ j
+        show (if j = k then _ else s.closes j) ≠ .idle → _ ∧ j = k ∧ _
+        by_cases hj : j = k
+        · intro _; exact ⟨Or.inl rfl, hj, hg.2.1⟩
+        · simp only [if_neg hj]; intro h; exact absurd (hnoc j) h
+      · intro _; exact hi.kind (by simp [ctl, hg.1, runnerPast])
+      · intro _
+        refine ⟨hg.2.1, ?_⟩
+        show (if k = k then CPC.waitingForLock else s.closes k) ≠ .idle
+        simp
+      · intro h; cases h
+    · simp at h
+
+theorem ctxinv_runAfterClose {s s' : State} (hi : CtxInv s) (h : step s .runAfterClose = some s') :
+    CtxInv s' := by
+  simp only [step] at h
+  split at h
+  · rename_i hg; cases h
+    have ha : s.api = false := hi.apiRun (by simp [ctl, hg.1])
+    have hic := hi.inClose hg.1
+    refine ⟨hi.kindD, hi.kindC, fun _ => ha, ?_, ?_, ?_, ?_, ?_⟩
+    · intro _ j hj; exact ⟨rfl, (hi.onlyS ha j hj).2⟩
+    · intro _ j hj
+      obtain ⟨_, a2, a3⟩ := hi.onlyC ha j hj
+      exact ⟨Or.inr rfl, a2, a3⟩
+    · intro _; exact hi.kind (by simp [ctl, hg.1, runnerPast])
+    · intro h; cases h
+    · intro _; exact Or.inr ⟨hic.1, hg.2⟩
+  · simp at h
 
 theorem ctxinv_step {s s' : State} (a : Action) (hi : CtxInv s) (h : step s a = some s') : CtxInv s' := by
-  obtain ⟨h1, h2, h3, h4, h5⟩ := hi
   cases a with
-  | conn c a =>
-    obtain ⟨e1, e2, e3, e4, e5⟩ := step_conn_ctl h
-    constructor <;> simp_all
+  | shutdownCall k nl cb => exact ctxinv_shutdownCall k nl cb hi h
+  | closeCall k => exact ctxinv_closeCall k hi h
+  | ctxExpire k => exact ctxinv_ctxExpire k hi h
+  | ctxCancel k => exact ctxinv_ctxCancel k hi h
+  | cancel => exact ctxinv_cancel hi h
+  | shutLock k => exact ctxinv_shutLock k hi h
+  | shutCloseCh k => exact ctxinv_shutCloseCh k hi h
+  | shutPoll k => exact ctxinv_shutPoll k hi h
+  | shutTimer k => exact ctxinv_shutTimer k hi h
+  | shutCtx k => exact ctxinv_shutCtx k hi h
+  | shutUnlock k => exact ctxinv_shutUnlock k hi h
+  | closeLock k => exact ctxinv_closeLock k hi h
+  | closeCloseCh k => exact ctxinv_closeCloseCh k hi h
+  | closeAll k => exact ctxinv_closeAll k hi h
+  | closeUnlock k => exact ctxinv_closeUnlock k hi h
+  | runCloseListeners => exact ctxinv_runCloseListeners hi h
+  | runShutdown k => exact ctxinv_runShutdown k hi h
+  | runAfterShutdown k => exact ctxinv_runAfterShutdown k hi h
+  | runAfterClose => exact ctxinv_runAfterClose hi h
   | _ =>
-    simp only [step] at h
-    repeat' split at h
-    all_goals first
-      | (simp at h; done)
-      | (simp only [Option.some.injEq] at h; subst h
-         constructor <;> (try split) <;> simp_all [closeListener, setConn])
+    unfold CtxInv
+    rw [step_env_ctl _ h rfl]; exact hi
 
 theorem ctxinv_reachable {s : State} (h : Reachable s) : CtxInv s := by
   induction h with
-  | init => exact ctxinv_init
-  | initNoLimit => exact ctxinv_initNoLimit
+  | start nl sg => exact ctxinv_initCfg nl sg
   | step a _ hs ih => exact ctxinv_step a ih hs
 
-/-- what one step does to the program counter of `Shutdown` while it waits: nothing, except
-    Shutdown's own poll / timer / context branch -/
-theorem step_shut_waiting {s s' : State} (a : Action) (h : step s a = some s')
-    (hw : s.shut = .polling ∨ s.shut = .selecting) :
-    (a = .shutPoll ∧ s'.shut = (if s.counter = 0 then .retNil else .selecting)) ∨
-    (a = .shutTimer ∧ s'.shut = .polling) ∨
-    (a = .shutCtx ∧ s.ctxExpired = true ∧ s'.shut = .retErr) ∨
-    (a ≠ .shutPoll ∧ a ≠ .shutCtx ∧ s'.shut = s.shut) := by
+/-- the call of `Shutdown` whose record an action changes -/
+def Action.shutOf : Action → Option CallId
+  | .shutdownCall k _ _ | .ctxExpire k | .ctxCancel k | .shutLock k | .shutCloseCh k | .shutPoll k
+  | .shutTimer k | .shutCtx k | .shutUnlock k | .runShutdown k => some k
+  | _ => none
+
+/-- the call of `Close` whose program counter an action changes -/
+def Action.closeOf : Action → Option CallId
+  | .closeCall k | .closeLock k | .closeCloseCh k | .closeAll k | .closeUnlock k | .runAfterShutdown k => some k
+  | _ => none
+
+/-- the record of call `k` of `Shutdown` is changed only by the actions of that call -/
+theorem step_shuts_other {s s' : State} (a : Action) (k : CallId) (h : step s a = some s')
+    (ha : a.shutOf ≠ some k) : s'.shuts k = s.shuts k := by
+  by_cases he : a.isEnv = true
+  · have := step_env_ctl a h he
+    exact congrFun (congrArg Ctl.shuts this) k
+  · cases a <;> first | (exact absurd rfl he) | skip
+    all_goals simp only [Action.shutOf, ne_eq, Option.some.injEq] at ha <;>
+      simp only [step] at h <;> (repeat' split at h) <;>
+      first
+        | (simp at h; done)
+        | (simp only [Option.some.injEq] at h; subst h
+           first
+             | rfl
+             | (show (if k = _ then _ else s.shuts k) = s.shuts k
+                exact if_neg (fun e => ha e.symm))
+             | (simp only [closeListener]; done)
+             | (split <;> rfl))
+
+/-- … and the program counter of call `k` of `Close` only by the actions of that call -/
+theorem step_closes_other {s s' : State} (a : Action) (k : CallId) (h : step s a = some s')
+    (ha : a.closeOf ≠ some k) : s'.closes k = s.closes k := by
+  by_cases he : a.isEnv = true
+  · have := step_env_ctl a h he
+    exact congrFun (congrArg Ctl.closes this) k
+  · cases a <;> first | (exact absurd rfl he) | skip
+    all_goals simp only [Action.closeOf, ne_eq, Option.some.injEq] at ha <;>
+      simp only [step] at h <;> (repeat' split at h) <;>
+      first
+        | (simp at h; done)
+        | (simp only [Option.some.injEq] at h; subst h
+           first
+             | rfl
+             | (show (if k = _ then _ else s.closes k) = s.closes k
+                exact if_neg (fun e => ha e.symm))
+             | (simp only [closeListener]; done)
+             | (split <;> rfl))
+
+/-- what one step does to the program counter of call `k` of `Shutdown` while it waits: nothing,
+    except that call's own poll / timer / context branch -/
+theorem step_shut_waiting {s s' : State} (k : CallId) (a : Action) (h : step s a = some s')
+    (hw : (s.shuts k).pc = .polling ∨ (s.shuts k).pc = .selecting) :
+    (a = .shutPoll k ∧ (s'.shuts k).pc = (if s.counter = 0 then .retNil else .selecting)) ∨
+    (a = .shutTimer k ∧ (s'.shuts k).pc = .polling) ∨
+    (a = .shutCtx k ∧ (s.shuts k).done.isSome = true ∧ (s'.shuts k).pc = .retErr) ∨
+    (a ≠ .shutPoll k ∧ a ≠ .shutCtx k ∧ (s'.shuts k).pc = (s.shuts k).pc) := by
+  by_cases ho : a.shutOf = some k
+  · cases a <;> simp only [Action.shutOf, Option.some.injEq, reduceCtorEq] at ho <;> subst ho <;>
+      simp only [step] at h <;> (repeat' split at h) <;>
+      first
+        | (simp at h; done)
+        | (simp only [Option.some.injEq] at h; subst h
+           rcases hw with hw | hw <;> simp_all [setShut, ctxDone])
+  · right; right; right
+    refine ⟨?_, ?_, by rw [step_shuts_other a k h ho]⟩
+    · intro e; rw [e] at ho; exact ho rfl
+    · intro e; rw [e] at ho; exact ho rfl
+
+/-- the context of a call is of one kind, fixed at the call, and it stays done for the reason for
+    which it became done -/
+theorem step_ctx_fixed {s s' : State} (k : CallId) (a : Action) (h : step s a = some s')
+    (hc : (s.shuts k).pc ≠ .idle) :
+    (s'.shuts k).noLimit = (s.shuts k).noLimit ∧ (s'.shuts k).cancellable = (s.shuts k).cancellable ∧
+      ∀ w, (s.shuts k).done = some w → (s'.shuts k).done = some w := by
+  by_cases ho : a.shutOf = some k
+  · cases a <;> simp only [Action.shutOf, Option.some.injEq, reduceCtorEq] at ho <;> subst ho <;>
+      simp only [step] at h <;> (repeat' split at h) <;>
+      first
+        | (simp at h; done)
+        | (simp only [Option.some.injEq] at h; subst h
+           simp_all [setShut, ctxDone]; done)
+        | (simp only [Option.some.injEq] at h; subst h
+           refine ⟨by simp [setShut, ctxDone], by simp [setShut, ctxDone], ?_⟩
+           intro w hw; simp [setShut, ctxDone, hw])
+  · rw [step_shuts_other a k h ho]; exact ⟨rfl, rfl, fun _ h => h⟩
+
+/-- how call `k` of `Shutdown` comes to `return nil` / to `return ctx.Err()`: by its OWN poll finding the
+    counter at 0, resp. by its own `select` finding its own context done — never by a step of anybody else -/
+theorem step_shut_reaches {s s' : State} (k : CallId) (a : Action) (h : step s a = some s') :
+    ((s'.shuts k).pc = .retNil → (s.shuts k).pc ≠ .retNil →
+      a = .shutPoll k ∧ s.counter = 0 ∧ (s.shuts k).pc = .polling) ∧
+    ((s'.shuts k).pc = .retErr → (s.shuts k).pc ≠ .retErr →
+      a = .shutCtx k ∧ (s.shuts k).done.isSome = true ∧ (s.shuts k).pc = .selecting) := by
+  by_cases ho : a.shutOf = some k
+  · cases a <;> simp only [Action.shutOf, Option.some.injEq, reduceCtorEq] at ho <;> subst ho <;>
+      simp only [step] at h <;> (repeat' split at h) <;>
+      first
+        | (simp at h; done)
+        | (simp only [Option.some.injEq] at h; subst h
+           constructor <;> intro h1 h2 <;> simp_all [setShut, ctxDone]
+           done)
+        | (simp only [Option.some.injEq] at h; subst h
+           by_cases h0 : s.counter = 0 <;> constructor <;> intro h1 h2 <;> simp_all [setShut, ctxDone])
+  · rw [step_shuts_other a k h ho]
+    exact ⟨fun h1 h2 => absurd h1 h2, fun h1 h2 => absurd h1 h2⟩
+
+/-- `closing` is set once and for all -/
+theorem step_closing_mono {s s' : State} (a : Action) (h : step s a = some s') (hc : s.closing = true) :
+    s'.closing = true := by
   cases a with
-  | conn c a => right; right; right; exact ⟨by simp, by simp, (step_conn_ctl h).1⟩
+  | conn c a =>
+    obtain ⟨x, e, _, rfl⟩ := step_conn_eq h
+    cases e <;> exact hc
   | _ =>
     simp only [step] at h
     repeat' split at h
     all_goals first
       | (simp at h; done)
       | (simp only [Option.some.injEq] at h; subst h
-         rcases hw with hw | hw <;> (try split) <;> simp_all [closeListener, setConn])
+         first | exact hc | rfl | (simp only [closeListener, setConn]; exact hc) | (split <;> first | exact hc | rfl))
 
 end C11
 end FwdVerif
